@@ -9,10 +9,10 @@ package main
 
 import (
 	"encoding/json"
+	"fmt"
 	"os"
 	"strings"
 	"testing"
-	"time"
 
 	"filippo.io/sunlight/internal/verifmc"
 )
@@ -51,9 +51,6 @@ func TestVerifC07R(t *testing.T) {
 		defer os.RemoveAll(fast)
 	}
 	rp.Note("c07r_cache_on_tmpfs", fast != scratch)
-	if os.Getenv("VERIF_C07R_LOG_ON_TMPFS") != "" {
-		scratch = fast // profiling aid
-	}
 
 	report := func(c c07rCase, o *c07rOutcome) {
 		if len(o.problems) > 0 {
@@ -76,7 +73,7 @@ func TestVerifC07R(t *testing.T) {
 		}
 		o := c07rRunCase(c, scratch, fast)
 		rp.Eval(c.class())
-		t.Logf("replay %s: %+v", c.name(), *o)
+		rp.Note("replay_outcome", fmt.Sprintf("%s: %+v (tool CPU %v)", c.name(), *o, c07rToolCPU))
 		report(c, o)
 		return
 	}
@@ -107,9 +104,7 @@ func TestVerifC07R(t *testing.T) {
 		}
 		histories++
 		func() {
-			tb := time.Now()
 			m, bo := c07rBuildMaster(group[0], scratch, fast)
-			rp.Add("wall_build_s", time.Since(tb).Seconds())
 			defer m.cleanup()
 			if len(bo.problems) > 0 {
 				rp.Eval(group[0].class())
@@ -128,20 +123,17 @@ func TestVerifC07R(t *testing.T) {
 				rp.Eval(c.class())
 				report(c, o)
 				if (i+j)%7 == 0 {
-					rp.Sample(map[string]any{"part": "e2e", "case": c, "log_size": o.n, "leaves_in_tiles_the_tool_reads": o.covered, "distinct_entries": o.distinct,
+					rp.Sample(map[string]any{"part": "e2e", "case": c, "log_size": o.n, "leaves_in_full_tiles": o.covered, "distinct_entries": o.distinct,
 						"entries_at_two_indexes": o.dupIdents, "cache_rows_before": o.rowsBefore, "cache_rows_after": o.rowsAfter,
 						"resubmissions_answered_from_cache": o.fromCache, "resubmissions_sequenced": o.resequence, "not_in_log_probes": o.nonMembers})
 				}
-				rp.Add("wall_clone_s", o.tClone.Seconds())
-				rp.Add("wall_tool_s", o.tTool.Seconds())
-				rp.Add("wall_rows_s", o.tRows.Seconds())
-				rp.Add("wall_resubmit_s", o.tResubmit.Seconds())
 				tot.fromCache += o.fromCache
 				tot.resequence += o.resequence
 				tot.nonMembers += o.nonMembers
 				tot.poisonKept += o.poisonKept
 				tot.poisonRepl += o.poisonRepl
 				tot.tailMiss += o.tailMiss
+				tot.tailHit += o.tailHit
 				tot.rowsAfter += o.rowsAfter
 				tot.distinct++
 			}
@@ -153,7 +145,8 @@ func TestVerifC07R(t *testing.T) {
 	rp.Add("e2e_acks_from_cache_checked", float64(tot.fromCache))
 	rp.Add("e2e_resubmissions_sequenced", float64(tot.resequence))
 	rp.Add("e2e_not_in_log_probes", float64(tot.nonMembers))
-	rp.Add("e2e_tail_entries_not_cached_as_documented", float64(tot.tailMiss))
+	rp.Add("e2e_partial_tile_entries_not_cached_as_documented", float64(tot.tailMiss))
+	rp.Add("e2e_partial_tile_entries_answered_from_cache", float64(tot.tailHit))
 	rp.Add("e2e_preexisting_wrong_rows_kept_not_judged", float64(tot.poisonKept))
 	rp.Add("e2e_preexisting_wrong_rows_replaced", float64(tot.poisonRepl))
 }
